@@ -103,7 +103,7 @@ def units(tier, variant):
     return out
 
 
-CATALOGUE_NAMES = [k[0] for k in KNOWN] + ['SF6', 'BAF2', 'TF3']
+CATALOGUE_NAMES = [k[0] for k in KNOWN] + ['SF6', 'BAF2', 'TF3', 'S-TIH6', 'H-K9L']
 _REF_GLASS = {}
 
 
@@ -114,9 +114,17 @@ def ref_material(glass, w, gcat=None):
         return 1.0
     name, nd, vd = glass
     if name in CATALOGUE_NAMES:
-        key = (name, (gcat or [None])[0])
+        key = (name, tuple(gcat or ()))
         if key not in _REF_GLASS:
-            _REF_GLASS[key] = Material(name, key[1].lower()) if key[1] else Material(name)
+            # the catalogues the file names, in the order listed; the first that knows the glass decides; else the name alone
+            m = None
+            for vendor in key[1]:
+                try:
+                    m = Material(name, vendor.lower())
+                    break
+                except ValueError:
+                    continue
+            _REF_GLASS[key] = m if m is not None else Material(name)
         return float(np.ravel(_REF_GLASS[key].n(w))[0])
     return float(np.ravel(AbbeMaterial(nd, vd).n(w))[0])
 
@@ -368,7 +376,24 @@ def run_gcat(part, unit):
         part.states += 1
         check_file(part, H, surf, 'INFINITY', 0, 'utf-8', dict(word='gcat', glass=name, vendor=vendor, variant=v), 'catalogue-named-in-GCAT')
         part.outcome('gcat', vendor, name)
-    part.sample(dict(gcat='vendor-qualified names'))
+    # several catalogues named: a glass the FIRST one does not know is still the catalogue glass of a later one
+    for vendors, glasses in ((['SCHOTT', 'OHARA'], [('S-TIH6', 1.80518, 25.42)]), (['OHARA', 'SCHOTT'], [('N-BK7', 1.5168, 64.17)]),
+                             (['SCHOTT', 'OHARA'], [('N-BK7', 1.5168, 64.17), ('S-TIH6', 1.80518, 25.42)]),
+                             (['OHARA', 'SCHOTT'], [('N-BK7', 1.5168, 64.17), ('S-TIH6', 1.80518, 25.42)]),
+                             (['SCHOTT', 'OHARA', 'CDGM'], [('H-K9L', 1.5168, 64.2), ('S-TIH6', 1.80518, 25.42)]),
+                             (['HIKARI', 'CDGM', 'SCHOTT'], [('F2', 1.62004, 36.30), ('N-BK7', 1.5168, 64.17)])):
+        for enc in ('utf-8', 'utf-16'):
+            H = dict(base_header(v), gcat=list(vendors))
+            if len(glasses) == 1:
+                surf = [dict(A[0], glass=glasses[0]), A[1]]
+            else:
+                surf = [dict(A[0], glass=glasses[0]), dict(A[0], curv=-0.8 * A[0]['curv'], glass=glasses[1]), A[1]]
+            part.states += 1
+            part.count('multi-catalogue-files')
+            check_file(part, H, surf, 'INFINITY', 0, enc, dict(word='gcat', glasses=[g[0] for g in glasses], vendors=list(vendors), variant=v),
+                       'several-catalogues-named-in-GCAT')
+            part.outcome('gcat', tuple(vendors), tuple(g[0] for g in glasses), enc)
+    part.sample(dict(gcat='vendor-qualified names; several catalogues'))
 
 
 def run_unit(unit):
